@@ -24,6 +24,16 @@ CHECKS = {
     technique="TLA+ spec of login (authorized-keys file classes x grant histories) checked by TLC; every TLC behaviour replayed on a real HopServer with an in-memory file system, real result judged one-directionally against the property",
     text="HopLogin.tla models files as sequences of line kinds (valid entry, other key, blank, comment, garbage, truncated base64, wrong prefix, padded entry), the grant map, the transport key set and the enable flag; TLC checks on every behaviour that a granted login was allowed by the property, that unparsable/missing files never admit anyone without a grant, and that grants are consumed. Every reachable (file, history) of three configurations (all files of <=2 lines x histories <=2; 13 curated files x histories <=3/4; grants disabled) is replayed on a real hopserver.HopServer (MapFS, three concrete renderings per line kind) and a real success that the property does not allow is a violation.",
     note="Trusted: TLC, the driver's composition of AuthorizeKey/AuthorizeKeyAuthGrant (copied from hopSession.checkAuthorization; the real session path is exercised by the C07 session driver). Refusals are never violations. Transport-level authentication of the key (C01) is assumed."),
+ "C01": dict(
+    level="model_checking", ref="§3 C01",
+    technique="TLA+ symbolic model of both PQ handshakes with a structured adversary and adversarial role instances, invariants checked exhaustively by TLC; every maximal TLC behaviour replayed lock-step on real transport.Server/Client over a simulated wire, outcomes judged by property predicates",
+    text="HopHandshake.tla models the discoverable (CH/SH/CA/SA/CL) and hidden (HR/HP) handshakes action-for-action (transcript terms, cookie, table allocation, Accept queue, duplex poisoning), 12 server role instances (honest under each client policy, hidden-only, impostor with a victim's certificate, valid-for-another-name, expired, wrong type, untrusted root, self-signed) and 7 client kinds (self-signed authorised/unauthorised, CA-issued, expired, untrusted, impostors), and a network adversary (drop, tamper any field, truncate, splice from a concurrent session, re-address, replay, rotate the cookie key, let the hidden-mode timestamp expire). TLC checks C01 as invariants (client done => certificate verifies under its policy and the responder holds the certified key; established session => client policy satisfied and key held, with the hidden-mode IK caveat stated in the spec). Every maximal behaviour (6.6k quick, +77k thorough) is replayed on real endpoints built with real certificates/keys of exactly those classes; a real completion or Accept offer that the scenario facts forbid is a violation.",
+    note="Trusted: TLC; the symbolic crypto abstraction (no algebraic attacks; adversary limited to the structured moves and role instances, not full Dolev-Yao); the harness PKI (forged defects go through the repository's serialiser) and simwire. Differences between model and code that no property clause explains make the check exit 2, never 1."),
+ "C02": dict(
+    level="model_checking", ref="§3 C02",
+    technique="same TLA+ handshake model: tamper/truncate/splice moves and key-agreement/distinctness invariants checked by TLC; behaviours replayed on real endpoints with per-step observation of who consumed a changed datagram; honest runs expanded to concrete byte offsets, masks and truncation lengths",
+    text="TLC checks that a role that consumed a changed datagram never completes, that completed peers agree on session id and keys, that directions and sessions never share keys (1 adversary move single-session, 2 moves with two concurrent sessions incl. splicing and replays: 170k states). Replay on real endpoints records for every step whether the receiving party had already finished, completed, answered or offered a connection, so a completion is attributed to the datagram that caused it. Honest discoverable and hidden runs are expanded to byte level: per message, field edges plus seeded offsets/masks/cut lengths (quick), every byte offset x {01,80,ff} and every truncation length (thorough), plus 'truncated copy after the receiver saw the full datagram'. Key equality is read from both SessionStates (verif build) and cross-checked black-box by a data probe.",
+    note="Trusted: as C01. Datagram extension (extra trailing bytes) is not in the property text and not judged. XOR masks other than the listed ones are sampled, not enumerated."),
 }
 
 NOT_YET = {}
